@@ -201,6 +201,15 @@ func (s *Stream) SetReadDeadline(deadline time.Time) error {
 	return nil
 }
 
+// isBehindNextSSN reports whether ssn lies behind the next stream sequence number
+// the ordered reader is waiting for (serial number arithmetic).
+func (s *Stream) isBehindNextSSN(ssn uint16) bool {
+	s.lock.RLock()
+	defer s.lock.RUnlock()
+
+	return sna16LT(ssn, s.reassemblyQueue.nextSSN)
+}
+
 func (s *Stream) handleData(pd *chunkPayloadData) error {
 	s.lock.Lock()
 	defer s.lock.Unlock()
